@@ -5,7 +5,7 @@ import subprocess
 
 import vlib
 
-EP = ["value", "value_rd", "perf", "perf_rd", "sasl", "msg", "msg_rd", "dstate", "error", "source", "lazy", "framedec", "saslcodec", "framehdr"]
+EP = ["value", "value_rd", "perf", "perf_rd", "sasl", "msg", "msg_rd", "dstate", "error", "source", "lazy", "framedec", "saslcodec", "framehdr", "lazy_rd"]
 
 
 ZW = {0x40, 0x41, 0x42, 0x43, 0x44, 0x45}
@@ -31,6 +31,7 @@ def exec_cases(wd, cases_path, ncases):
     open(out, "w").close()
     done = 0
     aborts = 0
+    cpu_deaths = 0
     cases = open(cases_path).read().splitlines()
     while done < ncases:
         p = subprocess.run([vlib.VH, "decode", cases_path, out, str(done)], stdout=subprocess.PIPE, stderr=subprocess.PIPE, text=True, timeout=3000)
@@ -41,18 +42,47 @@ def exec_cases(wd, cases_path, ncases):
             break
         if p.returncode == 2 and "tool error" in p.stderr:
             raise vlib.ToolError(p.stderr[-500:])
-        # the child died on case index n
-        why = "alloc-refused" if "VH-ALLOC-REFUSED" in p.stderr else "stack-overflow" if "overflowed its stack" in p.stderr else "abort-%d" % p.returncode
+        # the child died on case index n: run that input through every entry point in a child of its own, so that the record names
+        # the decoders that die (and keeps the verdicts of those that do not)
         c = json.loads(cases[n])
         fam = c["k"] == "family"
-        rec = {"k": c["k"], "src": c["src"], "b": [] if fam else c["b"], "n": 0 if fam else len(c["b"]), "arg": c["b"][0] if fam else 0,
-               "v": {"t": "null"}, "st": [why] * len(EP), "idem": ["na"] * len(EP), "peak_kb": 0, "cpu_ms": 0, "panic": why}
+        rec = None
+        st, idem, whys = [], [], []
+        for i in range(len(EP)):
+            one = os.path.join(wd, "one.ndjson")
+            open(one, "w").close()
+            try:
+                q = subprocess.run([vlib.VH, "decode", cases_path, one, str(n), str(i)], stdout=subprocess.PIPE, stderr=subprocess.PIPE, text=True, timeout=600)
+                rc, err = q.returncode, q.stderr
+            except subprocess.TimeoutExpired:
+                raise vlib.ToolError("isolated decode of case %d entry point %s did not end" % (n, EP[i]))
+            if rc == 0:
+                r1 = vlib.read_ndjson(one)[0]
+                st.append(r1["st"][i]); idem.append(r1["idem"][i])
+                if i == 0:
+                    rec = r1
+            else:
+                if rc == 2 and "tool error" in err:
+                    raise vlib.ToolError(err[-500:])
+                why = "alloc-refused" if "VH-ALLOC-REFUSED" in err else "cpu-exceeded" if "VH-CPU-EXCEEDED" in err else "stack-overflow" if "overflowed its stack" in err else "abort-%d" % rc
+                st.append(why); idem.append("na"); whys.append(why)
+        if not whys:
+            # every entry point survives on its own: the death depends on what ran before it in the same process
+            whys = ["abort-in-sequence"]
+            st = ["abort-in-sequence"] * len(EP)
+        base = rec or {"k": c["k"], "src": c["src"], "b": [] if fam else c["b"], "n": 0 if fam else len(c["b"]), "arg": c["b"][0] if fam else 0, "v": {"t": "null"}, "peak_kb": 0}
+        rec = dict(base, st=st, idem=idem, cpu_ms=30000 if "cpu-exceeded" in whys else 0, panic=",".join(sorted(set(whys))))
         with open(out, "a") as f:
             f.write(json.dumps(rec) + "\n")
         done = n + 1
         aborts += 1
+        cpu_deaths += 1 if "cpu-exceeded" in whys else 0
         if aborts > 200:
             raise vlib.ToolError("more than 200 child aborts")
+        if cpu_deaths >= 3:
+            # every further hang costs its full CPU budget once per entry point: three are enough to report, the rest of the inputs is left out
+            print("decode: three inputs exceeded the CPU budget; %d of %d inputs were run" % (done, ncases), flush=True)
+            break
     return out
 
 
@@ -71,6 +101,7 @@ def check(pid, tier, replay):
     vlib.write_ndjson(cp, cases)
     res = exec_cases(wd, cp, len(cases))
     rows = vlib.read_ndjson(res)
+    cases = cases[:len(rows)]
     # validate in shards so that one TLC run stays small
     verdict = vlib.Verdict(pid, tier)
     shard = 20000
